@@ -621,3 +621,48 @@ Proof.
   { clear. induction r as [|w r IH]; [reflexivity|]. cbn [flat_map]. rewrite app_length, le32_length, IH. simpl length. lia. }
   lia.
 Qed.
+
+(* ------------------------------------------------------------------ *)
+(* mid-step inputs (used by the large synthetic cases of Check/C15.v): an input in the middle of   *)
+(* step j is stored as exactly byte j                                                              *)
+(* ------------------------------------------------------------------ *)
+Open Scope Q_scope.
+Lemma Qfloor_unique x z : inject_Z z <= x -> x < inject_Z (z + 1) -> Qfloor x = z.
+Proof.
+  intros H1 H2. pose proof (Qfloor_le x) as F1. pose proof (Qlt_floor x) as F2.
+  assert (A : (Qfloor x < z + 1)%Z) by (rewrite Zlt_Qlt; eapply Qle_lt_trans; eassumption).
+  assert (B : (z < Qfloor x + 1)%Z) by (rewrite Zlt_Qlt; eapply Qle_lt_trans; eassumption).
+  lia.
+Qed.
+
+Theorem qrot_mid j : (0 <= j <= 255)%Z -> qrot ((inject_Z j - 128 + (1 # 2)) / 128) = j.
+Proof.
+  intros Hj. unfold qrot, qrot_of, rot_pre.
+  assert (E : (inject_Z j - 128 + (1 # 2)) / 128 * 128 + 128 == inject_Z j + (1 # 2)) by field.
+  assert (B0 : inject_Z 0 <= inject_Z j) by (rewrite <- Zle_Qle; lia).
+  assert (B1 : inject_Z j <= inject_Z 255) by (rewrite <- Zle_Qle; lia).
+  change (inject_Z 0) with 0 in B0. change (inject_Z 255) with 255 in B1.
+  set (v := (inject_Z j - 128 + (1 # 2)) / 128 * 128 + 128) in *.
+  apply Qfloor_unique; rewrite ?inject_Z_plus; change (inject_Z 1) with 1;
+  destruct (clamp_cases v 0 255 ltac:(lra)) as [[Ec ?]|[[Ec ?]|[Ec ?]]]; lra.
+Qed.
+
+Theorem qcol_of_mid j : (0 <= j <= 255)%Z -> qcol_of ((inject_Z j + (1 # 2)) / 255) = j.
+Proof.
+  intros Hj. unfold qcol_of.
+  assert (B0 : inject_Z 0 <= inject_Z j) by (rewrite <- Zle_Qle; lia).
+  assert (B1 : inject_Z j <= inject_Z 255) by (rewrite <- Zle_Qle; lia).
+  change (inject_Z 0) with 0 in B0. change (inject_Z 255) with 255 in B1.
+  set (v := (inject_Z j + (1 # 2)) / 255).
+  assert (E : v * 255 == inject_Z j + (1 # 2)) by (unfold v; field).
+  apply Qfloor_unique; rewrite ?inject_Z_plus; change (inject_Z 1) with 1;
+  destruct (clamp_cases v 0 1 ltac:(lra)) as [[Ec ?]|[[Ec ?]|[Ec ?]]]; lra.
+Qed.
+
+Theorem qalpha_mid j : (0 <= j <= 254)%Z -> qalpha ((inject_Z j + (1 # 2)) / 255) = j.
+Proof.
+  intros Hj. unfold qalpha. set (v := (inject_Z j + (1 # 2)) / 255).
+  assert (E : v * 255 == inject_Z j + (1 # 2)) by (unfold v; field).
+  apply Qfloor_unique; rewrite ?inject_Z_plus; change (inject_Z 1) with 1; lra.
+Qed.
+Close Scope Q_scope.
